@@ -69,9 +69,6 @@ func specCMAC(key, msg []byte) []byte {
 }
 
 func cmacMaxLen() int {
-	if verifrt.Thorough() {
-		return 65
-	}
 	return 33
 }
 
@@ -95,10 +92,26 @@ func VerifH_cmac_mulByX() {
 	verifrt.Reach("end")
 }
 
+// cmacLen picks the message length: every length up to the dense bound, then lengths around
+// block-count boundaries further out (the loop over blocks is uniform, but an implementation
+// could treat some block count specially; thorough covers every length up to 530).
+func cmacLen(name string) int {
+	dense := cmacMaxLen()
+	if verifrt.Thorough() {
+		return verifrt.Choice(name, 531)
+	}
+	far := [...]int{63, 64, 65, 127, 128, 129, 255, 256, 257, 271, 272, 273, 288, 511, 512, 513}
+	k := verifrt.Choice(name, dense+1+len(far))
+	if k <= dense {
+		return k
+	}
+	return far[k-dense-1]
+}
+
 func VerifH_cmac_compute() {
 	kl := keyLen("kl")
 	key := verifrt.Bytes("key", kl)
-	n := verifrt.Choice("n", cmacMaxLen()+1)
+	n := cmacLen("n")
 	msg := verifrt.Bytes("msg", n)
 	c, err := New(key)
 	verifrt.Assert(err == nil, "New accepts 16/24/32-byte keys")
